@@ -26,14 +26,111 @@ def statement(renamed, same_str, enforce_new, new_ovr, old_ovr, new_cs, old_cs, 
     return new_cs
 
 
-def run(run, binfo):
-    tier, rng = run.tier, run.rng
-    root = fresh_root('c11')
-    pairs = list(PAIRS)
-    if tier == 'thorough':
-        leaves = ['role:r0', 'role:r1', 'role:r2', '@', '!']
-        for _ in range(150):
-            pairs.append((render_expr(rng, leaves, rng.randint(1, 5)), render_expr(rng, leaves, rng.randint(1, 5))))
+def do_job(root, row, new_cs, old_cs, tier):
+    """one configuration -> (violations, correspondence disagreement or None, non-trivial key or None)"""
+    from oslo_policy import policy
+    from c01 import enforcer as plain_enforcer
+    viols = []
+    renamed, same_str, enforce_new, new_ovr, old_ovr, where, shared = row
+    if same_str:
+        old_cs = new_cs
+    new_name = 'svc:new'
+    old_name = 'svc:old' if renamed else new_name
+    defaults = [(new_name, new_cs, (old_name, old_cs), None), ('helper', 'role:r1', None, None)]
+    if shared == 1:
+        defaults.append(('svc:new2', new_cs, (old_name, old_cs), None))
+    elif shared == 2:
+        defaults.insert(0, (old_name, 'role:r2 or role:new', (old_name, old_cs), None))
+    if old_ovr == 'prefixref':
+        defaults.append((new_name + ':forced', 'role:r2', None, None))
+    files = {}
+    ovr_old_value = 'role:ovr_old'
+    if new_ovr:
+        files[new_name] = 'role:ovr'
+    if old_ovr == 'arbitrary':
+        files[old_name] = ovr_old_value
+    elif old_ovr == 'alias':
+        files[old_name] = 'rule:' + new_name
+    elif old_ovr == 'prefixref':
+        # a reference to a DIFFERENT rule whose name merely begins with the new name: a real override
+        ovr_old_value = 'rule:' + new_name + ':forced'
+        files[old_name] = ovr_old_value
+    shutil.rmtree(root, ignore_errors=True)
+    os.makedirs(root)
+    fs = FsSim(root)
+    fs.mkdir('policy.d')
+    if where == 'main':
+        fs.write_main(files, 'yaml')
+    elif where == 'dir':
+        fs.write_main({'unrelated': '@'}, 'json')
+        fs.write('policy.d', 'ovr.yaml', files, 'yaml')
+    else:
+        # the same names overridden in two layered files with different values: the later
+        # layer (the directory) must govern, also in the record of file rules
+        stale = {k: ('role:stale' if not v.startswith('rule:') else 'role:stale_alias') for k, v in files.items()}
+        if old_ovr == 'arbitrary' and renamed:
+            stale[old_name] = 'rule:' + new_name      # an alias superseded by a real override
+        fs.write_main(stale, 'json')
+        fs.write('policy.d', 'ovr.yaml', files, 'yaml')
+    fs.sync()
+    e = make_enforcer(root, defaults, enforce_new_defaults=enforce_new)
+    e.load_rules()
+    obs = observe(e)
+    corr = None
+    mod = model_history([enforce_new, enc_defaults(defaults), 1], [[fs.wire(), 0]])[0]
+    if mod != obs:
+        corr = (repr(row) + repr((new_cs, old_cs)), mod, obs)
+    names = [new_name] + (['svc:new2'] if shared == 1 else [])
+    spec = run_batch([[11, [enforce_new, enc_defaults(defaults), 1], fs.wire(), [S(n) for n in names]]])[0]
+    for n, sp in zip(names, spec):
+        want_s = unS(sp[0]) if sp else None
+        got_s = dict(obs['rules']).get(n)
+        if want_s != got_s:
+            viols.append(('table-spec', 'row %r strings %r: %s is %r, extracted spec says %r'
+                          % (row, (new_cs, old_cs), n, got_s, want_s),
+                          {'kind': 'failing-input', 'suite': 'spec-c11',
+                           'input': {'row': list(row), 'new': new_cs, 'old': old_cs}, 'expected': want_s,
+                           'observed': got_s}))
+    # the statement read directly, on decisions over all role subsets
+    gov = statement(renamed, same_str, enforce_new, new_ovr and True, old_ovr, new_cs, old_cs, ovr_old_value)
+    ref_rules = {'helper': 'role:r1', new_name + ':forced': 'role:r2'}
+    if isinstance(gov, tuple):
+        ref_rules['x'] = '(%s) or (%s)' % (gov[1], gov[2])
+    else:
+        ref_rules['x'] = gov
+    pe = plain_enforcer()
+    pe.set_rules(policy.Rules.from_dict(ref_rules), use_conf=False)
+    decs = []
+    for m in range(2 ** len(ROLES)):
+        if tier == 'quick' and m % 5:
+            continue
+        roles = [r for i, r in enumerate(ROLES) if (m >> i) & 1]
+        got = bool(e.enforce(new_name, {}, {'roles': roles}))
+        want = bool(pe.enforce('x', {}, {'roles': roles}))
+        decs.append(got)
+        if got != want:
+            viols.append(('table-decision', 'row %r strings %r roles %r: decision %r, documented %r (governed by %r)'
+                          % (row, (new_cs, old_cs), roles, got, want, gov),
+                          {'kind': 'failing-input', 'suite': 'spec-c11',
+                           'input': {'row': list(row), 'new': new_cs, 'old': old_cs, 'roles': roles},
+                           'expected': want, 'observed': got}))
+            break
+    key = (repr(row) + new_cs + '|' + old_cs) if len(set(decs)) > 1 else None
+    return viols, corr, key
+
+
+def _worker(args):
+    idx, jobs, tier = args
+    import common
+    common.setup_impl()
+    common.WORK = os.path.join(common.VERIF, '_work', 'c11_%d_%d' % (os.getppid(), idx))
+    root = fresh_root('c11_%d' % idx)
+    out = [do_job(root, row, n, o, tier) for row, n, o in jobs]
+    shutil.rmtree(common.WORK, ignore_errors=True)
+    return out
+
+
+def all_rows():
     rows = []
     for renamed, same_str, enforce_new, new_ovr, old_ovr, where, shared in itertools.product(
             [True, False], [True, False], [True, False], [False, True], ['absent', 'arbitrary', 'alias', 'prefixref'],
@@ -43,103 +140,34 @@ def run(run, binfo):
         if shared == 2 and not (renamed and old_ovr == 'absent'):
             continue        # 2: the old name is itself a registered policy with a same-name deprecation, registered first
         rows.append((renamed, same_str, enforce_new, new_ovr, old_ovr, where, shared))
+    return rows
+
+
+def run(run, binfo):
+    tier, rng = run.tier, run.rng
+    pairs = list(PAIRS)
+    if tier == 'thorough':
+        leaves = ['role:r0', 'role:r1', 'role:r2', '@', '!']
+        for _ in range(60):
+            pairs.append((render_expr(rng, leaves, rng.randint(1, 5)), render_expr(rng, leaves, rng.randint(1, 5))))
+    rows = all_rows()
+    jobs = [(row, n, o) for row in rows for n, o in pairs]
+    import multiprocessing as mp
+    nproc = 14
+    chunks = [(i, jobs[i::nproc], tier) for i in range(nproc)]
+    with mp.get_context('fork').Pool(nproc) as pool:
+        parts = pool.map(_worker, chunks)
     bad_corr = []
-    nrows = 0
-    for row in rows:
-        renamed, same_str, enforce_new, new_ovr, old_ovr, where, shared = row
-        for new_cs, old_cs in pairs:
-            if same_str:
-                old_cs = new_cs
-            new_name = 'svc:new'
-            old_name = 'svc:old' if renamed else new_name
-            defaults = [(new_name, new_cs, (old_name, old_cs), None), ('helper', 'role:r1', None, None)]
-            if shared == 1:
-                defaults.append(('svc:new2', new_cs, (old_name, old_cs), None))
-            elif shared == 2:
-                defaults.insert(0, (old_name, 'role:r2 or role:new', (old_name, old_cs), None))
-            if old_ovr == 'prefixref':
-                defaults.append((new_name + ':forced', 'role:r2', None, None))
-            files = {}
-            ovr_old_value = 'role:ovr_old'
-            if new_ovr:
-                files[new_name] = 'role:ovr'
-            if old_ovr == 'arbitrary':
-                files[old_name] = ovr_old_value
-            elif old_ovr == 'alias':
-                files[old_name] = 'rule:' + new_name
-            elif old_ovr == 'prefixref':
-                # a reference to a DIFFERENT rule whose name merely begins with the new name: a real override
-                ovr_old_value = 'rule:' + new_name + ':forced'
-                files[old_name] = ovr_old_value
-            shutil.rmtree(root, ignore_errors=True)
-            os.makedirs(root)
-            fs = FsSim(root)
-            fs.mkdir('policy.d')
-            if where == 'main':
-                fs.write_main(files, 'yaml')
-            elif where == 'dir':
-                fs.write_main({'unrelated': '@'}, 'json')
-                fs.write('policy.d', 'ovr.yaml', files, 'yaml')
-            else:
-                # the same names overridden in two layered files with different values: the later
-                # layer (the directory) must govern, also in the record of file rules
-                stale = {k: ('role:stale' if not v.startswith('rule:') else 'role:stale_alias') for k, v in files.items()}
-                if old_ovr == 'arbitrary' and renamed:
-                    stale[old_name] = 'rule:' + new_name      # an alias superseded by a real override
-                fs.write_main(stale, 'json')
-                fs.write('policy.d', 'ovr.yaml', files, 'yaml')
-            fs.sync()
-            e = make_enforcer(root, defaults, enforce_new_defaults=enforce_new)
-            e.load_rules()
-            obs = observe(e)
-            nrows += 1
+    for part in parts:
+        for viols, corr, key in part:
             run.evaluations += 1
-            mod = model_history([enforce_new, enc_defaults(defaults), 1], [[fs.wire(), 0]])[0]
-            if mod != obs:
-                bad_corr.append((repr(row) + repr((new_cs, old_cs)), mod, obs))
-            names = [new_name] + (['svc:new2'] if shared == 1 else [])
-            spec = run_batch([[11, [enforce_new, enc_defaults(defaults), 1], fs.wire(), [S(n) for n in names]]])[0]
-            for n, sp in zip(names, spec):
-                want_s = unS(sp[0]) if sp else None
-                got_s = dict(obs['rules']).get(n)
-                if want_s != got_s:
-                    run.violation('table-spec', 'row %r strings %r: %s is %r, extracted spec says %r'
-                                  % (row, (new_cs, old_cs), n, got_s, want_s),
-                                  {'kind': 'failing-input', 'suite': 'spec-c11',
-                                   'input': {'row': list(row), 'new': new_cs, 'old': old_cs}, 'expected': want_s,
-                                   'observed': got_s})
-            # the statement read directly, on decisions over all role subsets
-            if new_name in [new_name] and not (n != new_name):
-                pass
-            gov = statement(renamed, same_str, enforce_new, new_ovr and True, old_ovr, new_cs, old_cs, ovr_old_value)
-            from oslo_policy import policy
-            ref_rules = {'helper': 'role:r1', new_name + ':forced': 'role:r2'}
-            if isinstance(gov, tuple):
-                ref_rules['x'] = '(%s) or (%s)' % (gov[1], gov[2])
-            else:
-                ref_rules['x'] = gov
-            from c01 import enforcer as plain_enforcer
-            pe = plain_enforcer()
-            nontriv = False
-            decs = []
-            for m in range(2 ** len(ROLES)):
-                if tier == 'quick' and m % 5:
-                    continue
-                roles = [r for i, r in enumerate(ROLES) if (m >> i) & 1]
-                got = bool(e.enforce(new_name, {}, {'roles': roles}))
-                pe.set_rules(policy.Rules.from_dict(ref_rules), use_conf=False)
-                want = bool(pe.enforce('x', {}, {'roles': roles}))
-                decs.append(got)
-                if got != want:
-                    run.violation('table-decision', 'row %r strings %r roles %r: decision %r, documented %r (governed by %r)'
-                                  % (row, (new_cs, old_cs), roles, got, want, gov),
-                                  {'kind': 'failing-input', 'suite': 'spec-c11',
-                                   'input': {'row': list(row), 'new': new_cs, 'old': old_cs, 'roles': roles},
-                                   'expected': want, 'observed': got})
-                    break
-            if len(set(decs)) > 1:
-                run.nontrivial.add(repr(row) + new_cs + '|' + old_cs)
-    run.count('rows', nrows)
+            for v in viols:
+                run.violation(*v)
+            if corr:
+                bad_corr.append(corr)
+            if key:
+                run.nontrivial.add(key)
+    run.count('rows', len(jobs))
     run.sample({'row': list(rows[5]), 'pair': PAIRS[1]})
     run.extra['correspondence_disagreements'] = len(bad_corr)
     if bad_corr and not run.violations:
@@ -148,14 +176,22 @@ def run(run, binfo):
                       {'kind': 'broken-obligation', 'obligation': 'correspondence suite S5 (deprecated defaults)',
                        'input': c, 'model': m, 'observed': o, 'count': len(bad_corr)})
     run.rule = ('the whole configuration product (renamed/same-name x same/different check strings x enforce_new_defaults x '
-                'new-name override x old-name override absent/arbitrary/alias x override in main file or policy directory x '
-                'shared predecessor: %d configurations) x %d check-string pairs; effective check vs the extracted documented '
-                'table (spec_rule), decisions over role subsets vs the statement read directly, model vs implementation. '
-                'non-trivial = rows whose decision is not constant' % (len(rows), len(pairs)))
+                'new-name override x old-name override absent/arbitrary/alias/reference to a rule whose name extends the new '
+                'name x override in main file, policy directory or both layered x predecessor shared with a second policy / '
+                'itself a registered same-name-deprecated policy: %d configurations) x %d check-string pairs; effective '
+                'check vs the extracted documented table (spec_rule), decisions over role subsets vs the statement read '
+                'directly, model vs implementation. non-trivial = rows whose decision is not constant' % (len(rows), len(pairs)))
     run.exhaustive = True
-    shutil.rmtree(root, ignore_errors=True)
 
 
 def replay(run, rep):
+    inp = rep.get('input') or {}
+    if 'row' in inp:
+        root = fresh_root('c11replay')
+        viols, corr, _ = do_job(root, tuple(inp['row']), inp['new'], inp['old'], 'thorough')
+        shutil.rmtree(root, ignore_errors=True)
+        print('violations on this input:', [v[1] for v in viols])
+        return not viols
+
     print('replay for C11 re-runs the quick check; input was', rep.get('input'))
     return False
